@@ -453,6 +453,15 @@ func callSSA(i *interpreter, caller *frame, callpos token.Pos, fn *ssa.Function,
 		if fn.Pkg != nil && fn.Name() == "init" && fn == fn.Pkg.Func("init") && !initSet[fn.Pkg.Pkg.Path()] && fn.Pkg != i.mainPkg {
 			return nil
 		}
+		if px.ex != nil && px.ex.Cfg.Summaries != nil && fn.Pkg == i.mainPkg {
+			if sm := px.ex.Cfg.Summaries[fn.Name()]; sm != "" {
+				if f := summaries[sm]; f != nil {
+					if r, ok := f(fr, fn, args); ok {
+						return r
+					}
+				}
+			}
+		}
 		if px.ex != nil && px.ex.Cfg.Overrides != nil && px.ex.Cfg.Overrides[name] {
 			return havocCall(fr, fn, args)
 		}
